@@ -792,6 +792,8 @@ Proof.
     refine (at_path_st_wf_st s path _ (es', nx, rk) Hs _ _ Hat).
     + apply get_ref_single_preserves.
     + apply get_ref_single_len.
+  - (* OGetD *)
+    destruct (Nat.leb (length pt) (nranks s) && negb (Nat.eqb (length pt) 0)); exact Hs.
 Qed.
 
 (* a refused operation (or an ill-addressed one) leaves the state exactly as it was *)
@@ -862,4 +864,5 @@ Proof.
     destruct (at_path_st path _ O (root_es s) (s_next s) (s_ranks s)) as [[[es' nx] rk]|];
       [|reflexivity].
     cbn [snd] in H. destruct H; discriminate.
+  - destruct (Nat.leb (length pt) (nranks s) && negb (Nat.eqb (length pt) 0)); reflexivity.
 Qed.
